@@ -138,17 +138,11 @@ class Task(object):
         current = self.state
         target  = task_dict['state']
 
-        # we never update once the task is FAILED or DONE
-        if current in [rps.FAILED, rps.DONE]:
+        # we never update once the task is final: the application has seen
+        # that state already
+        if current in rps.FINAL:
             self._log.debug('task %s is final, ignore update', self.uid)
             return
-
-        # when in CANCELED state, we only allow updates for `DONE` tasks - in
-        # that case the cancel command raced the task execution, and the
-        # execution actually won, so we don't want to waste that work
-        if current == rps.CANCELED and target != rps.DONE:
-            self._log.debug('task %s was CANCELED, state not updated', self.uid)
-            target = current
 
 
         if not reconnect:
